@@ -9,7 +9,7 @@ from tools import lib, cdc
 PROP = "C16"
 PROPS_FILE = "Props/C16.v"
 HEADER = """From Coq Require Import ZArith List Bool.
-From PV Require Import Base.Outcome Circuit.Tree Circuit.Printer Circuit.Printer_facts Circuit.Ident Circuit.Ident_facts.
+From PV Require Import Base.Outcome Circuit.Tree Circuit.Printer Circuit.Printer_facts Circuit.Ident Circuit.Ident_facts Circuit.IdentQueue.
 Import ListNotations.
 Open Scope N_scope.
 Definition F := 200%nat.
@@ -35,6 +35,13 @@ Fixpoint find_elt (u : nat) (es : list ielt) : option ielt :=
 Record obsv := mkOb { ob_order : list nat; ob_typed : list (nat * nat); ob_names : list (nat * str); ob_fit : list (nat * list str) }.
 Definition model_obs (c : iconn) : obsv :=
   let es := elems F c in mkOb (map ie_uid es) (typed_ids es) (names es) (fit_ids es).
+(* the traversal as the code performs it (first-in first-out work list, Circuit/IdentQueue.v); the iteration bound grows with the
+   cube of the number of element objects, far above what the generated circuits need; a bound that is too small yields None *)
+Definition worklist_order (c : iconn) : option (list nat) :=
+  let n := length (all_uids_conn F c) in
+  option_map (map ie_uid) (qelems F (100 + n * n * n + 20 * n * n)%nat c).
+Definition order_is (o : option (list nat)) (l : list nat) : bool := match o with Some x => nat_list_eqb x l | None => false end.
+Definition obs_eqb_worklist (c : iconn) (b : obsv) : bool := order_is (worklist_order c) (ob_order b).
 Definition obs_eqb (a b : obsv) : bool :=
   nat_list_eqb (ob_order a) (ob_order b) && pairs_eqb (ob_typed a) (ob_typed b) && named_eqb (ob_names a) (ob_names b)
   && keyed_eqb (ob_fit a) (ob_fit b).
@@ -119,7 +126,7 @@ def obs_lit(o):
 def shard_text(cases):
     items = ["(%d%%Z, %s, %s)" % (i, t, obs_lit(o)) for i, t, o in cases]
     return ("Definition cases : list (Z * iconn * obsv) := [\n" + ";\n".join(items) + "].\n"
-            "Definition mism := flat_map (fun c : Z * iconn * obsv => let '(i, t, o) := c in if obs_eqb (model_obs t) o then [] else [i]) cases.\n"
+            "Definition mism := flat_map (fun c : Z * iconn * obsv => let '(i, t, o) := c in if obs_eqb (model_obs t) o && obs_eqb_worklist t o then [] else [i]) cases.\n"
             "Definition viol := flat_map (fun c : Z * iconn * obsv => let '(i, t, o) := c in if ident_holds t o then [] else [(- (i + 1))%Z]) cases.\n"
             "Definition result : list Z := mism ++ viol.\n")
 
@@ -130,10 +137,11 @@ def run(rep, tier, seed, tr_errors):
     rep.rule = ("random circuits through the public API: all topologies up to depth 3, repeated element types, labelled/unlabelled "
                 "mixes, containers with nested sub-circuits (incl. containers inside sub-circuits); non-trivial = >= 2 elements of the "
                 "same type or a container; distinct by structure")
-    rep.trusted += ["Coq 8.16.1 kernel, vm_compute", "hand-written model coq/Circuit/Ident.v (traversal order as a recursive function, "
-                    "identifier and naming rules); tie 2 = correspondence on every run",
+    rep.trusted += ["Coq 8.16.1 kernel, vm_compute", "hand-written models coq/Circuit/Ident.v (traversal order as a recursive function, identifier and naming rules) and "
+                    "coq/Circuit/IdentQueue.v (the traversal as the code performs it: first-in first-out work list with recursive calls on popped sub-circuits); "
+                    "tie 2 = correspondence of BOTH with the observed element order on every run; theorem: the work list computes the recursive order",
                     "the clause 'every element exactly once' is decided per case on observed data (sorted id lists), not as a theorem about the traversal"]
-    thm_ok, names, out = lib.check_props_file(rep, PROPS_FILE, expect=["C16_typed_counts", "C16_running_ids", "C16_names_injective", "C16_builtin_symbols_have_no_underscore", "C16_names_are_assigned", "C16_traversal_no_duplicates", "C16_traversal_exactly_the_elements"])
+    thm_ok, names, out = lib.check_props_file(rep, PROPS_FILE, expect=["C16_typed_counts", "C16_running_ids", "C16_names_injective", "C16_builtin_symbols_have_no_underscore", "C16_names_are_assigned", "C16_traversal_no_duplicates", "C16_traversal_exactly_the_elements", "C16_worklist_returns_the_recursive_order", "C16_worklist_terminates_with_the_recursive_order", "C16_worklist_semantics_total_and_deterministic"])
     n = 400 if tier == "quick" else 6000
     cases, direct = [], []
     from pyimpspec import Circuit
